@@ -345,9 +345,19 @@ def strip_flags(model_out):
     return ";".join(f)
 
 
+
+def replay_case(replay):
+    """the case of a replay file: a violation's case, or the case of the first recorded disagreement"""
+    if replay.get("case"):
+        return replay["case"]
+    for d in replay.get("correspondence_disagreements", []) + replay.get("disagreements", []):
+        if d.get("case"):
+            return d["case"]
+    raise KeyError("replay file holds no case")
+
 def run(ctx):
     if ctx.replay:
-        scs = [ctx.replay["case"]["sc"]]
+        scs = [replay_case(ctx.replay)["sc"]]
     else:
         scs = [gen_scenario(ctx.rng, "overwrite") for _ in range(ctx.budget(90, 1500))]
         scs += [gen_scenario(ctx.rng, "modify") for _ in range(ctx.budget(50, 800))]
